@@ -894,6 +894,15 @@ func (m *wireMon) onStep() {
 		if mtu == 0 {
 			mtu = 1191
 		}
+		if m.props["C05"] {
+			// the tracker of received TSNs must agree with itself after every step: a stale bit (or a wrong
+			// count) names a TSN that was never received as received one revolution of the bitmap later, which
+			// the runs are usually too short to reach
+			if msg := accReceiveWindowSanity(a); msg != "" {
+				w.violate("C05", "received-tsn-tracker-inconsistent", "%s: %s; a later SACK would report a TSN that was never received (or hide one that was)", ep.name, msg)
+				return
+			}
+		}
 		if m.props["C10"] {
 			if cw < mtu {
 				w.violate("C10", "cwnd-below-mtu", "%s: cwnd=%d fell below one MTU (%d)", ep.name, cw, mtu)
